@@ -73,7 +73,8 @@ prop("C02", ["prims.go", "c02a.go"],
 # ------------------------------------------------------------------------------------------------ C13
 prop("C13", ["prims.go", "c13.go"],
      [run("check", "harnessC13", ["match", "mismatch", "empty-checksum", "nil-hash", "open-fails"], native="check",
-          quick={"witness": 16, "bound": "digest <= 4 bytes and checksum <= 5 bytes of BitVec 8, symbolic lengths; Hash nil or not; file open failing or not"}),
+          quick={"witness": 16, "params": {"bytes": 4}, "bound": "digest <= 4 bytes and checksum <= 5 bytes of BitVec 8, symbolic lengths; Hash nil or not; file open failing or not"},
+          thorough={"witness": 32, "params": {"bytes": 8}, "bound": "digest <= 8 bytes and checksum <= 9 bytes of BitVec 8, symbolic lengths; Hash nil or not; file open failing or not"}),
       run("start-order", "harnessC13start", ["launched", "refused", "runnerfunc-refused"], files=WORLD,
           quick={"bound": "whole Client.Start composed with a real plugin, launch through exec.Cmd and through a RunnerFunc, SecureConfig with digest <= 2 and checksum <= 3 symbolic bytes: the process is launched iff the checksum matches"})],
      ["hash.Hash is a harness implementation returning an arbitrary digest (the hash function itself is outside the claim)", "os.Open/io.Copy/File.Close modelled: open may fail"],
@@ -235,7 +236,8 @@ prop("C06", ["prims.go", "c06.go"],
      note="Bound: 2 IDs, 2 dispenses, DPOR with 2 reversals (a check-then-act atomicity bug in getStream needs two). " + ENGINE)
 prop("C07", ["prims.go", "c07.go"],
      [run("routing", "harnessC07", ["accept-first", "dial-first", "routed"], dpor=True,
-          quick={"max_reversals": 1, "bound": "ID a accepted on the plugin and dialled from the host, ID b the other way round; symbolic distinct IDs; symbolic gap < 5 s either order"})],
+          quick={"max_reversals": 1, "bound": "ID a accepted on the plugin and dialled from the host, ID b the other way round; symbolic distinct IDs; symbolic gap < 5 s either order; identity and namespace-translating runner; <= 1 reversal"},
+          thorough={"max_reversals": 2, "max_wall_s": 1500, "bound": "as quick with <= 2 reversals"})],
      [GRPCSEAM, GHOSTFS, "broker stream = FIFO pair; Send copies the message"], ["grpc", "net.Listen", "generated broker stream"],
      "TLS and tagging address translators; 3 IDs; the transport under gRPC",
      text="Bounded symbolic model checking of the real GRPCBroker (non-mux Accept, DialWithOptions, Run, getClientStream, timeoutWait), the real gRPCBrokerServer/gRPCBrokerClientImpl pumps and dialGRPCConn: the connection dialled for ID n reaches the listener created by Accept(n), in both directions and either order.",
@@ -243,14 +245,18 @@ prop("C07", ["prims.go", "c07.go"],
 prop("C08", ["prims.go", "c08.go"],
      [run("mux", "harnessC08", ["established"], dpor=True,
           quick={"max_reversals": 2, "bound": "one establishment, plugin accepts / host dials, accept-first and dial-first, all schedules with <= 2 reversals"},
-          thorough={"max_reversals": 3, "bound": "as quick with <= 3 reversals"})],
+          thorough={"max_reversals": 3, "bound": "as quick with <= 3 reversals"}),
+      run("both-directions", "harnessC08seq", ["established", "host-accepts", "plugin-accepts", "dial-first", "accept-first"], dpor=True,
+          quick={"max_reversals": 2, "params": {"k": 1}, "bound": "one establishment in either direction (plugin accepts / host dials, or host accepts / plugin dials), accept-first or dial-first, symbolic gap and ID; all schedules with <= 2 reversals"},
+          thorough={"max_reversals": 1, "params": {"k": 2}, "max_wall_s": 1500, "bound": "two sequential establishments, each in either direction and either order, distinct symbolic IDs; all schedules with <= 1 reversal"})],
      [YAMUX, "the two brokers talk through an in-model FIFO streamer pair"], ["yamux", "broker stream"],
-     "two sequential establishments; traffic on earlier connections; > 2 reversals",
+     "more than two establishments; bytes flowing on earlier connections (their streams staying open is checked); more reversals than the bound",
      text="Bounded symbolic model checking of the real mux branch of GRPCBroker (Accept, listenForKnocks, knock, muxDial, Run) with both real grpcmux muxers and blocked listeners over a yamux model, all schedules of the goroutines of one establishment up to the reversal bound: the stream dialled for n is delivered by the listener returned by Accept(n), the dial succeeds, and the main accept loop and session keep working.",
      note="Bound: one establishment; DPOR 2 reversals quick, 3 thorough. " + ENGINE)
 prop("C11", ["prims.go", "c11.go"],
      [run("grpc-stdio", "harnessC11", ["delivered"], dpor=True,
-          quick={"max_reversals": 2, "race": True, "bound": "gRPC: two stdout chunks and one stderr chunk, each an opaque byte view of symbolic length 1..1024; all schedules with <= 2 reversals; happens-before race detection on the chunk buffer"}),
+          quick={"max_reversals": 2, "race": True, "bound": "gRPC: two stdout chunks and one stderr chunk, each an opaque byte view of symbolic length 1..1024; all schedules with <= 2 reversals; happens-before race detection on the chunk buffer"},
+          thorough={"max_reversals": 3, "race": True, "max_wall_s": 1500, "bound": "as quick with <= 3 reversals"}),
       run("composed", "harnessC11world", ["delivered", "written-before-attach"], files=WORLD,
           quick={"bound": "host x plugin composed, net/rpc, gRPC and gRPC+mux, both launch methods: the plugin writes two stdout chunks and one stderr chunk (arbitrary contents, symbolic length 1..1024) to its process streams after serving began, before or after the host attached; what SyncStdout/SyncStderr received is compared with what was written"})],
      ["bufio.Reader.Read returns 1..len(p) bytes (a view over the source's next bytes)", "stream model whose Send reads the message bytes at call time (marshalling)"] + WORLD_ASSUME, ["bufio.Reader.Read", "generated stdio stream"] + WORLD_STUBS,
@@ -262,7 +268,8 @@ prop("C20", ["prims.go", "c20.go"],
       run("close-close", "harnessC20close", ["both-closed"], dpor=True, quick={"max_reversals": 2, "race": True, "bound": "two goroutines calling GRPCBroker.Close (sync.Once control)"}),
       run("nextid", "harnessC20nextid", ["ids-distinct"], dpor=True, quick={"max_reversals": 2, "race": True, "bound": "two goroutines each taking two IDs from both broker kinds, counter value symbolic (wrap-around included)"}),
       run("accept-close", "harnessC20brokerClose", ["host-side", "plugin-side", "both-returned"], dpor=True, files=["prims.go", "c07.go"],
-          quick={"max_reversals": 3, "race": True, "bound": "a GRPCBroker.Accept (sending through the real stream pump) racing with Close of the same broker, host side and plugin side, all schedules with <= 3 reversals"})],
+          quick={"max_reversals": 3, "race": True, "bound": "a GRPCBroker.Accept (sending through the real stream pump) racing with Close of the same broker, host side and plugin side, all schedules with <= 3 reversals"},
+          thorough={"max_reversals": 4, "race": True, "max_wall_s": 1500, "bound": "as quick with <= 4 reversals"})],
      [GRPCSEAM, "broker stream = FIFO pair; Send copies the message"], ["grpc.Server", "broker stream"],
      "races inside gRPC/yamux; schedules needing more reversals than the bound; concurrent Client methods beyond overlapping Kill (C04) and broker Accept/Dial mixes beyond C06-C08's DPOR runs",
      text="Bounded exploration of all schedules (stateless DPOR over synchronisation operations) of small groups of goroutines on the real GRPCServer.Stop, GRPCBroker.Close/Accept/NextId, MuxBroker.NextId and the real broker stream pumps, with vector-clock happens-before race detection restricted to accesses made from go-plugin source lines: no data race, no panic (double close, send on a closed channel), no hang, IDs distinct.",
